@@ -129,60 +129,56 @@ def configs(rng, one_line_len, n, all_widths):
     return cfgs
 
 
-def check_c01(chk, args):
-    q = chk.tier == 'quick'
-    rng = chk.rng
-    vals = value_universe(chk)
-    chk.stage('universe', values=len(vals))
+def drive(chk, prop, jobs, subs=(), env=None, mode='eq', rule=''):
+    """Generic pipeline: print -> parse (syntax only) -> TLC judges TEq(Denote(obs), expected).
+
+    jobs yields (key, value, cfg, expected_term, oracle) where oracle(evaluated) -> bool is the
+    Python cross-oracle; key identifies the value (outputs are de-duplicated per key)."""
     cases = {}
     meta = {}
     nprints = 0
-    for vi, v in enumerate(vals):
+    ntimeouts = 0
+    genv = {'__builtins__': {'float': float, 'set': set, 'frozenset': frozenset}}
+    genv.update(env or {})
+    for key, v, cfg, expected, oracle in jobs:
+        nprints += 1
+        desc = {'value': repr(v)[:300], 'config': cfg}
         try:
-            with warnings.catch_warnings():
-                warnings.simplefilter('ignore')
-                one = P.pformat(v, width=10 ** 6, ribbon_width=10 ** 6)
-            L = len(one) if '\n' not in one else 60
+            with warnings.catch_warnings(record=True) as wl:
+                warnings.simplefilter('always')
+                with common.time_limit(20):
+                    out = P.pformat(v, **cfg)
+        except (Exception, common.Timeout) as e:  # noqa
+            chk.violation(prop + '.raises', 'pformat(%.200r, %r) raised %r' % (v, cfg, e), desc)
+            if isinstance(e, common.Timeout):
+                ntimeouts += 1
+                if ntimeouts >= 3:
+                    break
+            continue
+        if any('raised an exception' in str(x.message) for x in wl):
+            chk.violation(prop + '.printer-failed', 'pformat(%.200r, %r): a printer failed and fell back to repr: %s'
+                          % (v, cfg, [str(x.message)[:200] for x in wl][:1]), desc)
+            continue
+        ck = (key, out, repr(expected) if cfg.get('sort_dict_keys') else '')
+        if ck in cases:
+            continue
+        desc['output'] = out
+        try:
+            obs = pyterm.parse_output(out)
+        except pyterm.ParseError as e:
+            chk.violation(prop + '.syntax', 'pformat(%.200r, %r) is not an expression: %s\n%s' % (v, cfg, e, out), desc)
+            continue
+        cid = len(cases) + 1
+        cases[ck] = {'id': cid, 'mode': mode, 'obs': obs, 'val': expected, 'subs': [list(x) for x in subs],
+                     'N': 0, 'notices': []}
+        try:
+            back = eval('(' + out + '\n)', dict(genv))
+            ok = bool(oracle(back))
         except Exception:
-            L = 40
-        for (w, rw, ind, srt) in configs(rng, L, 8 if q else 14, all_widths=(not q and vi % 5 == 0)):
-            nprints += 1
-            cfg = {'width': w, 'ribbon_width': rw, 'indent': ind, 'sort_dict_keys': srt}
-            desc = {'value': repr(v)[:300], 'config': cfg}
-            try:
-                with warnings.catch_warnings(record=True) as wl:
-                    warnings.simplefilter('always')
-                    with common.time_limit(20):
-                        out = P.pformat(v, **cfg)
-            except (Exception, common.Timeout) as e:  # noqa
-                chk.violation('C01.raises', 'pformat(%.200r, %r) raised %r' % (v, cfg, e), desc)
-                continue
-            if any('raised an exception' in str(x.message) for x in wl):
-                chk.violation('C01.printer-failed', 'pformat(%.200r, %r): a bundled printer failed and fell back to repr'
-                              % (v, cfg), desc)
-                continue
-            key = (vi, out, srt)
-            if key in cases:
-                continue
-            desc['output'] = out
-            try:
-                obs = pyterm.parse_output(out)
-            except pyterm.ParseError as e:
-                chk.violation('C01.syntax', 'pformat(%.200r, %r) is not an expression: %s\n%s' % (v, cfg, e, out), desc)
-                continue
-            cid = len(cases) + 1
-            cases[key] = {'id': cid, 'mode': 'eq', 'obs': obs, 'val': pyterm.value_term(v, sort=srt), 'subs': [],
-                          'N': 0, 'notices': []}
-            # python cross-oracle
-            try:
-                back = eval('(' + out + '\n)', {'__builtins__': {'float': float, 'set': set, 'frozenset': frozenset}})
-                ok = pyterm.typed_equal(back, v, sort=srt)
-            except Exception:
-                ok = False
-            meta[cid] = (desc, ok)
-            chk.nontrivial((vi, out))
+            ok = False
+        meta[cid] = (desc, ok)
+        chk.nontrivial((key, out))
     caselist = list(cases.values())
-    # canaries: swap the expected value for a slightly different one
     can = []
     for c in caselist[:: max(1, len(caselist) // 30)][:30]:
         k = dict(c)
@@ -193,7 +189,7 @@ def check_c01(chk, args):
                              min_per_shard=300, heap='2g')
     chk.add_model(st)
     acc = v['ACCEPT']
-    chk.cov['canaries_total'] = len(can)
+    chk.cov['canaries_total'] += len(can)
     for k in can:
         if k['id'] in acc:
             chk.machinery_error('canary accepted by TermTrace')
@@ -208,21 +204,48 @@ def check_c01(chk, args):
                                 % (tla_ok, py_ok, desc))
         if not tla_ok:
             nrej += 1
-            chk.violation('C01.roundtrip', 'pformat(%s, %r) = %r does not denote an equal value of the same types'
+            chk.violation(prop + '.roundtrip', 'pformat(%s, %r) = %r does not denote an equal value of the same types'
                           % (desc['value'], desc['config'], desc['output']), desc)
-    chk.cov['evaluations'] = nprints
-    chk.cov['traces_validated_against_impl'] = len(caselist)
-    chk.cov['rule'] = ('value trees over the built-in literal types: all container skeletons with <= 3 containers, leaves '
-                       'from an adversarial alphabet (exhaustive for 1 leaf, for 2 leaves in the thorough tier, sampled '
-                       'beyond), random trees to depth 5, 20-deep nestings; x widths 1..L+3, 79, 200 x ribbon x indent x '
-                       'sort; distinct = distinct (value, output text); every distinct output is parsed (ast, syntax '
-                       'only) and judged by TLC with PyTerm!TEq(Denote(obs), value)')
+    chk.cov['evaluations'] += nprints
+    chk.cov['traces_validated_against_impl'] += len(caselist)
+    if rule:
+        chk.cov['rule'] = rule
     for c in caselist[:: max(1, len(caselist) // 5)][:5]:
         chk.sample(meta[c['id']][0])
-    chk.assumptions += ['ast.parse is the trusted lexer/parser; Python eval + typed equality is run as a cross-oracle and '
-                        'any disagreement with the TLA+ verdict is a machinery error']
     chk.stage('tlc.validate', prints=nprints, distinct_outputs=len(caselist), rejected=nrej, states=st['distinct'],
               wall=round(st['wall'], 1))
+    return nrej
+
+
+def check_c01(chk, args):
+    q = chk.tier == 'quick'
+    rng = chk.rng
+    vals = value_universe(chk)
+    chk.stage('universe', values=len(vals))
+
+    def jobs():
+        for vi, v in enumerate(vals):
+            try:
+                with warnings.catch_warnings():
+                    warnings.simplefilter('ignore')
+                    with common.time_limit(20):
+                        one = P.pformat(v, width=10 ** 6, ribbon_width=10 ** 6)
+                L = len(one) if '\n' not in one else 60
+            except (Exception, common.Timeout):
+                L = 40
+            for (w, rw, ind, srt) in configs(rng, L, 8 if q else 14, all_widths=(not q and vi % 5 == 0)):
+                cfg = {'width': w, 'ribbon_width': rw, 'indent': ind, 'sort_dict_keys': srt}
+                yield (vi, v, cfg, pyterm.value_term(v, sort=srt),
+                       (lambda back, v=v, srt=srt: pyterm.typed_equal(back, v, sort=srt)))
+
+    drive(chk, 'C01', jobs(), rule=(
+        'value trees over the built-in literal types: all container skeletons with <= 3 containers, leaves '
+        'from an adversarial alphabet (exhaustive for 1 leaf, for 2 leaves in the thorough tier, sampled '
+        'beyond), random trees to depth 5, 20-deep nestings; x widths 1..L+3, 79, 200 x ribbon x indent x '
+        'sort; distinct = distinct (value, output text); every distinct output is parsed (ast, syntax '
+        'only) and judged by TLC with PyTerm!TEq(Denote(obs), value)'))
+    chk.assumptions += ['ast.parse is the trusted lexer/parser; Python eval + typed equality is run as a cross-oracle and '
+                        'any disagreement with the TLA+ verdict is a machinery error']
 
 
 def eval_sorted(v):
@@ -239,3 +262,90 @@ def eval_sorted(v):
     if type(v) is tuple:
         return tuple(eval_sorted(x) for x in v)
     return v
+
+
+# ---------------------------------------------------------------------------
+# C08: subclasses of built-in types keep their class
+
+def c08_base_values(kind, rng, q):
+    if kind == 'list':
+        return [[], [1], [1, 'a'], ['word ' * 8, 2], list(range(30))]
+    if kind == 'tuple':
+        return [(), (1,), (1, 'a'), ('x' * 40, None)]
+    if kind == 'set':
+        return [set(), {1}, {1, 'a'}]
+    if kind == 'frozenset':
+        return [frozenset(), frozenset([1]), frozenset(['b', 2])]
+    if kind == 'dict':
+        return [{}, {'a': 1}, {'a': 1, 'b': [1, 2], 'c': 'x' * 30}]
+    if kind == 'str':
+        return ['', 'a', "it's", 'word ' * 12, 'x' * 60, 'new\nline "q"']
+    if kind == 'bytes':
+        return [b'', b'a', b'bytes and more bytes ' * 3, b'\xff\x00']
+    if kind == 'int':
+        return [0, -1, 7, 2 ** 70]
+    if kind == 'float':
+        return [0.0, -0.0, 1.5, float('inf'), float('nan'), 1e300]
+    raise ValueError(kind)
+
+
+class C08Box:
+    def __init__(self, v):
+        self.v = v
+
+
+@P.register_pretty(C08Box)
+def _pretty_c08box(b, ctx):
+    return P.pretty_call(ctx, C08Box, b.v)
+
+
+def check_c08(chk, args):
+    import verif_subs as S
+    q = chk.tier == 'quick'
+    rng = chk.rng
+    subs = sorted(set(S.ALL.values()))
+    env = {'verif_subs': S}
+
+    def same(back, v):
+        return pyterm.typed_equal_sub(back, v, S.ALL)
+
+    contexts = {
+        'top': (lambda x: x, lambda t: t),
+        'list-element': (lambda x: [0, x], lambda t: ['list', [['int', '0'], t]]),
+        'dict-value': (lambda x: {'k': x}, lambda t: ['dict', [[['str', pyterm.codes('k')], t]]]),
+        'sole-element': (lambda x: (x,), lambda t: ['tuple', [t]]),
+    }
+
+    def jobs():
+        vi = 0
+        for cls, (qual, kind) in S.ALL.items():
+            if cls is S.IE:
+                insts = [S.IE.A, S.IE.B]
+            else:
+                insts = []
+                for b in c08_base_values(kind, rng, q):
+                    try:
+                        insts.append(cls(b))
+                    except Exception:
+                        pass
+            for inst in insts:
+                for cname, (wrap, wrapt) in contexts.items():
+                    ctxs = [(cname, wrap, wrapt)]
+                    if cname == 'top' and kind in ('tuple', 'frozenset', 'str', 'bytes', 'int', 'float'):
+                        ctxs.append(('dict-key', lambda x: {x: 1}, lambda t: ['dict', [[t, ['int', '1']]]]))
+                    for cn, w_, wt_ in ctxs:
+                        vi += 1
+                        val = w_(inst)
+                        expected = wt_(pyterm.value_term(inst, subs=S.ALL))
+                        widths = [1, 5, 10, 20, 30, 40, 50, 70, 79] if q else list(range(1, 71)) + [79, 200]
+                        for w in widths:
+                            cfg = {'width': w, 'ribbon_width': rng.choice([w, max(1, w // 2), 200]),
+                                   'indent': rng.choice([2, 4])}
+                            yield (vi, val, cfg, expected, (lambda back, val=val: same(back, val)))
+    drive(chk, 'C08', jobs(), subs=subs, env=env, rule=(
+        'for each built-in base (list, tuple, set, frozenset, dict, str, bytes, int, float): subclasses plain / '
+        'overriding __repr__ / __str__ / both, and an IntEnum; x base values (empty, short, long enough to split, '
+        'special floats) x contexts (top, list element, dict value, dict key, sole tuple element) x widths; the parsed '
+        'output must denote <<"sub", qualified name, base value>> (PyTerm!Denote); distinct = (instance, context, output)'))
+    chk.assumptions += ['cross-oracle: eval with the generated module in scope, type(result) is the subclass and the '
+                        'underlying base values are typed-equal']
